@@ -13,7 +13,7 @@ static PY_MODULES: std::sync::Mutex<Vec<(String, serde_json::Value, String)>> = 
 
 const LANGS: [Lang; 5] = [Lang::TypeScript, Lang::Kotlin, Lang::Swift, Lang::Go, Lang::Python];
 const CARRIERS: [&str; 11] = ["direct", "vec", "option", "map-value", "map-key", "array", "slice", "generic-arg", "box", "option-vec", "generic-arg-nested"];
-const NODE_KINDS: [&str; 5] = ["struct", "enum-newtype", "enum-struct-variant", "alias", "const"];
+const NODE_KINDS: [&str; 7] = ["struct", "enum-newtype", "enum-struct-variant", "alias", "const", "enum-unit-variant-first", "enum-mixed-unit-between"];
 
 fn carry(c: &str, t: Ty) -> Ty {
     match c {
@@ -98,6 +98,23 @@ pub fn program(g: &Graph) -> File {
                 }
                 Item::enumm(name, vec![Variant::new("Sv", VKind::Struct(fs)), Variant::new("U", VKind::Unit)])
             }
+            "enum-unit-variant-first" => {
+                // a unit variant listed before the variants that hold the references
+                let mut vs = vec![Variant::new("Nothing", VKind::Unit)];
+                for (i, t) in refs.iter().enumerate() {
+                    vs.push(Variant::new(&format!("R{i}"), VKind::Newtype(t.clone())));
+                }
+                vs.push(Variant::new("Own", VKind::Newtype(Ty::Prim("u32"))));
+                Item::enumm(name, vs)
+            }
+            "enum-mixed-unit-between" => {
+                let mut vs = vec![Variant::new("Own", VKind::Newtype(Ty::Prim("u32"))), Variant::new("Gap", VKind::Unit)];
+                for (i, t) in refs.iter().enumerate() {
+                    vs.push(Variant::new(&format!("S{i}"), VKind::Struct(vec![Field::new("r", t.clone())])));
+                    vs.push(Variant::new(&format!("G{i}"), VKind::Unit));
+                }
+                Item::enumm(name, vs)
+            }
             "alias" => Item::new(name, IKind::Alias(refs.first().cloned().unwrap_or(Ty::Prim("String")))),
             _ => Item::new(name, IKind::Const { ty: g.edges[u].first().map(|&v| Ty::user(&g.names[v])).unwrap_or(Ty::Prim("u32")), expr: "1".into() }),
         };
@@ -145,11 +162,21 @@ fn positions(out: &OutFile, g: &Graph, u: usize, lang: Lang) -> Vec<usize> {
             if g.kinds[u] == "const" {
                 n == const_name(&g.names[u]) || n == g.names[u]
             } else {
-                n == base || n == g.names[u] || (n.ends_with("Inner") && (n.starts_with(&format!("{base}Sv")) || n.starts_with(&format!("{}Sv", g.names[u]))))
+                n == base || n == g.names[u] || (n.ends_with("Inner") && (n.starts_with(&base) || n.starts_with(&g.names[u])))
             }
         })
         .map(|(i, _)| i)
         .collect()
+}
+
+/// definitions one node contributes: itself plus one helper type per struct variant (TypeScript inlines those)
+fn defs_of_node(g: &Graph, u: usize, lang: Lang) -> usize {
+    let helpers = match g.kinds[u] {
+        "enum-struct-variant" => 1,
+        "enum-mixed-unit-between" => g.edges[u].len(),
+        _ => 0,
+    };
+    1 + if lang == Lang::TypeScript { 0 } else { helpers }
 }
 
 pub fn check_graph(g: &Graph, lang: Lang, choices: &[u32], family: &str, acc: &mut Acc) {
@@ -194,7 +221,7 @@ pub fn check_graph(g: &Graph, lang: Lang, choices: &[u32], family: &str, acc: &m
     for u in 0..g.n {
         acc.judgements += 1;
         let p = positions(&ok.out, g, u, lang);
-        let want = if g.kinds[u] == "enum-struct-variant" && lang != Lang::TypeScript { 2 } else { 1 };
+        let want = defs_of_node(g, u, lang);
         if p.len() != want {
             let mut d = base.clone();
             d["node"] = json!(g.names[u]);
@@ -206,7 +233,7 @@ pub fn check_graph(g: &Graph, lang: Lang, choices: &[u32], family: &str, acc: &m
         }
         pos.push(p);
     }
-    let expected_defs: usize = (0..g.n).map(|u| if g.kinds[u] == "enum-struct-variant" && lang != Lang::TypeScript { 2 } else { 1 }).sum::<usize>() + if g.carrier.starts_with("generic-arg") { 1 } else { 0 };
+    let expected_defs: usize = (0..g.n).map(|u| defs_of_node(g, u, lang)).sum::<usize>() + if g.carrier.starts_with("generic-arg") { 1 } else { 0 };
     if ok.out.defs.len() != expected_defs {
         let mut d = base.clone();
         d["expected_definition_count"] = json!(expected_defs);
@@ -362,7 +389,9 @@ pub fn run(args: &[String]) -> i32 {
             },
             |ch, acc: &mut Acc| {
                 let edges = gen_edges(ch, n);
-                let kinds: Vec<&'static str> = (0..n).map(|_| *ch.pick("node_kind", &NODE_KINDS)).collect();
+                // quick: with three nodes only the five basic kinds (the two mixed-enum kinds are covered with two nodes)
+                let kind_menu: &[&'static str] = if n == 3 && !thorough { &NODE_KINDS[..5] } else { &NODE_KINDS };
+                let kinds: Vec<&'static str> = (0..n).map(|_| *ch.pick("node_kind", kind_menu)).collect();
                 let renamed = match ch.choose("renamed_node", n + 1) {
                     0 => None,
                     k => Some(k - 1),
